@@ -35,6 +35,19 @@ func c03Gen(rt *rapid.T) sPlan {
 	}
 	sb.Signers = seq(p.N)
 	p.Batches = []sBatch{sb}
+	if rapid.IntRange(0, 2).Draw(rt, "revision") == 0 {
+		// a second batch in the same round that re-uses message identifiers of the first one, some of them with a revised
+		// payload and file name: stores and exports are per batch, the earlier batch must not shine through
+		sb2 := sBatch{Proposer: rapid.IntRange(0, p.N-1).Draw(rt, "proposer2"), Signers: seq(p.N)}
+		for _, tk := range sb.Tasks {
+			if tk.Payload != nil && rapid.Bool().Draw(rt, "revised") {
+				tk.Payload = append(append([]byte{}, tk.Payload...), []byte(" (revised)")...)
+				tk.File = "rev-" + tk.File
+			}
+			sb2.Tasks = append(sb2.Tasks, tk)
+		}
+		p.Batches = append(p.Batches, sb2)
+	}
 	return p
 }
 
@@ -184,6 +197,9 @@ func c03Run(t *testing.T, st *vstat.Stats, p sPlan) *viol {
 			}
 			shape = append(shape, fmt.Sprintf("e%d:%q", len(tk.Payload), tk.File))
 		}
+	}
+	if len(p.Batches) > 1 {
+		st.Class("second-batch-reusing-message-ids")
 	}
 	if nb > 0 {
 		st.Class("has-baked-range")
